@@ -605,3 +605,8 @@ def check(L, tier, log, samples):
     stats = {"states": states, "transitions": queries, "queries": queries, "solver_s": 0.0, "witness": wit,
              "functions": sorted(fns), "wall_s": round(time.time() - t0, 1)}
     return viols, stats
+
+
+# native scenarios that exercise, against the real build, the behaviours this spec decides: on a tree where the spec finds no
+# violation every one of them must NOT reproduce (a scenario that reproduces there means the spec misses something)
+SCENARIOS = [('c12_refusal', ['client']), ('c12_refusal', ['server']), ('c12_refusal', ['trailers']), ('c12_field_gate', ['41', '78']), ('c12_field_gate', ['3a78', '78']), ('c12_field_gate', ['61', '0a']), ('c12_request_gate', ['']), ('c12_request_gate', ['m']), ('c12_request_gate', ['ma']), ('c12_request_gate', ['mh']), ('c12_request_gate', ['maH']), ('c12_request_gate', ['mah']), ('c12_request_gate', ['maC']), ('c12_send_order', []), ('c12_field_sequence', ['ab=x,Ab=y']), ('c12_field_sequence', ['ab=x,ab=y'])]
